@@ -116,23 +116,26 @@ func c19Build(seed uint64, cell c19Cell) *c19Case {
 	if !c.noWl && r.chance(1, 3) {
 		// a front door: a service (selecting by label, so every pod is looked at), and in half of these an Ingress or a
 		// Route leading to it. Which component meets a conflict first depends on what else is in the directory.
+		// (in the namespace of the conflicting pods of the podLabels cells, or next door: the pods of one namespace
+		// being fine says nothing about the pods of another)
+		fns := pick(r, []string{"alpha", "alpha", "beta"})
 		sel := map[string]string{pick(r, labelKeys): pick(r, labelVals)}
 		if r.chance(1, 2) {
 			sel = map[string]string{"app": "a"} // the label the conflicting pods of the podLabels cells carry
 		}
-		others = append(others, toDoc("Service", "alpha", "front", &corev1.Service{TypeMeta: metav1.TypeMeta{APIVersion: "v1", Kind: "Service"},
-			ObjectMeta: metav1.ObjectMeta{Name: "front", Namespace: "alpha"},
+		others = append(others, toDoc("Service", fns, "front", &corev1.Service{TypeMeta: metav1.TypeMeta{APIVersion: "v1", Kind: "Service"},
+			ObjectMeta: metav1.ObjectMeta{Name: "front", Namespace: fns},
 			Spec:       corev1.ServiceSpec{Selector: sel, Ports: []corev1.ServicePort{{Name: "p0", Port: 80, Protocol: corev1.ProtocolTCP, TargetPort: intstr.FromInt32(8080)}}}}))
 		switch r.intn(4) {
 		case 0:
 			pt := netv1.PathTypePrefix
-			others = append(others, toDoc("Ingress", "alpha", "door", &netv1.Ingress{TypeMeta: metav1.TypeMeta{APIVersion: "networking.k8s.io/v1", Kind: "Ingress"},
-				ObjectMeta: metav1.ObjectMeta{Name: "door", Namespace: "alpha"},
+			others = append(others, toDoc("Ingress", fns, "door", &netv1.Ingress{TypeMeta: metav1.TypeMeta{APIVersion: "networking.k8s.io/v1", Kind: "Ingress"},
+				ObjectMeta: metav1.ObjectMeta{Name: "door", Namespace: fns},
 				Spec: netv1.IngressSpec{Rules: []netv1.IngressRule{{Host: "h.example", IngressRuleValue: netv1.IngressRuleValue{HTTP: &netv1.HTTPIngressRuleValue{
 					Paths: []netv1.HTTPIngressPath{{Path: "/", PathType: &pt, Backend: netv1.IngressBackend{Service: &netv1.IngressServiceBackend{Name: "front", Port: netv1.ServiceBackendPort{Number: 80}}}}}}}}}}}))
 		case 1:
-			others = append(others, toDoc("Route", "alpha", "door", &routev1.Route{TypeMeta: metav1.TypeMeta{APIVersion: "route.openshift.io/v1", Kind: "Route"},
-				ObjectMeta: metav1.ObjectMeta{Name: "door", Namespace: "alpha"},
+			others = append(others, toDoc("Route", fns, "door", &routev1.Route{TypeMeta: metav1.TypeMeta{APIVersion: "route.openshift.io/v1", Kind: "Route"},
+				ObjectMeta: metav1.ObjectMeta{Name: "door", Namespace: fns},
 				Spec:       routev1.RouteSpec{Host: "h.example", To: routev1.RouteTargetReference{Kind: "Service", Name: "front"}}}))
 		}
 	}
